@@ -80,8 +80,11 @@ def convert(law, kind, tmpdir, tag, inplace=False):
     return new
 
 
-def query(law, q40, style):
+def query(law, q40, style, scalar=False):
+    """scalar=True: one call per wavelength with a true 0-d Quantity"""
     from astropy import units as u
+    if scalar:
+        return np.array([np.asarray(query_one(law, x, style), dtype=float).reshape(-1)[0] for x in q40])
     lam = np.array(q40, dtype=float) / 40.0 * u.micron
     if style == 1:
         lam = lam.to(u.nm)
@@ -90,6 +93,13 @@ def query(law, q40, style):
     elif style == 3:
         lam = lam.to(u.m)
     return np.asarray(law.get_av(lam), dtype=float)
+
+
+def query_one(law, x40, style):
+    from astropy import units as u
+    lam = (float(x40) / 40.0) * u.micron
+    lam = lam.to([u.micron, u.nm, u.cm, u.m][style])
+    return law.get_av(lam)
 
 
 def replay_chunk(behs, tmpdir, seed):
@@ -101,7 +111,10 @@ def replay_chunk(behs, tmpdir, seed):
                 law = convert(law, k, tmpdir, '%d_%d_%d' % (os.getpid(), bi, ci), inplace=bool((bi + ci + seed) % 2))
             qs = sorted(int(x) for x in b['q'])
             got = query(law, qs, (bi + seed) % 4)
-            got1 = [float(query(law, [x], (bi + seed + 1) % 4)[0]) for x in qs]
+            if (bi + seed) % 3 == 0:
+                got1 = [float(v) for v in query(law, qs, (bi + seed + 1) % 4, scalar=True)]
+            else:
+                got1 = [float(query(law, [x], (bi + seed + 1) % 4)[0]) for x in qs]
         except Exception as e:
             col.violation('C14:raised:%s' % type(e).__name__, 'table w=%r c=%r after %r: %r' % (b['w'], b['c'], b['convs'], e), b)
             continue
@@ -115,7 +128,7 @@ def replay_chunk(behs, tmpdir, seed):
                 # boundary: a query exactly on an end node that goes through a unit conversion may land 1 ulp outside
                 return fclose(val, want, 1e-12, 1e-14) or (edge and (unitconv or style != 0) and val == 0.0)
             if not (ok(g, (bi + seed) % 4) and ok(g1, (bi + seed + 1) % 4)):
-                col.violation('C14:value', 'law w=%r/40 um chi=%r after %r: get_av(%g um) = %r (vector) / %r (scalar), spec %r'
+                col.violation('C14:value', 'law w=%r/40 um chi=%r after %r: get_av(%g um) = %r (vector) / %r (one wavelength per call, 1-element array or 0-d Quantity), spec %r'
                               % (b['w'], b['c'], b['convs'], x / 40.0, float(g), g1, want), dict(b, query=x, observed=[float(g), g1]))
                 break
     return col
